@@ -860,6 +860,12 @@ fn frontend_start(
                     }
 
                     if *mod_atom == b"mod" {
+                        if x.len() < 2 {
+                            return Err(CompileErr(
+                                pre_forms[0].loc(),
+                                "mod form needs an argument list".to_string(),
+                            ));
+                        }
                         let args = Rc::new(x[1].clone());
                         let body_vec: Vec<Rc<SExp>> =
                             x.iter().skip(2).map(|s| Rc::new(s.clone())).collect();
